@@ -255,7 +255,13 @@ def simplify_math_iterators(source: str) -> str:
                 for node in core.walk(arg, ast.Call)
             ):
                 continue
-            yield node, _integrate_over(arg.elt, arg.generators)
+            try:
+                replacement = _integrate_over(arg.elt, arg.generators)
+            except (TypeError, NotImplementedError):
+                # E.g. a symbolic range with a step, where the number of steps cannot be computed
+                continue
+
+            yield node, replacement
 
 
 @processing.fix
